@@ -137,6 +137,23 @@ Policies == {[sel |-> s, src |-> IF Len(s.saddr) = 4 THEN <<192, 168, 0, 1>> ELS
                ix \in {<<0, 0>>, <<0, 9>>, <<16, 1>>, <<8191, 65535>>}}
             \cup {[sel |-> c[1], src |-> c[2], dst |-> c[3], ipsec_proto |-> 50, mode |-> 1, dir |-> d, index |-> <<0, 9>>] : c \in CrossPairs, d \in {0, 1, 2}}
 
+\* Xfrm.create_policies: the protect entries of one connection, IN ORDER - three requests per entry (out with the entry's index, in and fwd with the
+\* selector and the tunnel end points reversed), each saying what ITS entry means whatever the entries before it were (ESP after AH, transport after tunnel)
+Entry(s, pr, m, ix) == [sel |-> s, ipsec_proto |-> pr, mode |-> m, index |-> ix]
+Rev(s) == Sel(s.daddr, s.saddr, s.plen_d, s.plen_s, s.dport, s.sport, s.proto)
+EntrySels == {Sel(<<10, 1, 2, 3>>, <<10, 1, 2, 0>>, 32, 24, 0, 256, 6), Sel(<<10, 0, 0, 0>>, <<10, 1, 2, 3>>, 8, 32, 256, 0, 17), Sel(<<0, 0, 0, 0>>, <<10, 1, 2, 0>>, 0, 24, 0, 0, 0)}
+Entries == {Entry(s, pr, m, ix) : s \in EntrySels, pr \in {50, 51}, m \in {0, 1}, ix \in {1}}
+EntryLists == {<<a>> : a \in Entries} \cup
+              UNION {{<<a, [b EXCEPT !.index = 2]>> : b \in {x \in Entries : x.sel # a.sel}} : a \in Entries} \cup
+              UNION {UNION {{<<a, [b EXCEPT !.index = 2], [c EXCEPT !.index = 900]>> : c \in {x \in Entries : x.mode = 1 - b.mode /\ x.sel # a.sel /\ x.sel # b.sel}}
+                            : b \in {x \in Entries : x.ipsec_proto = 50 /\ x.sel # a.sel}} : a \in {x \in Entries : x.ipsec_proto = 51}}
+My4 == <<192, 168, 0, 1>>   Peer4 == <<192, 168, 0, 2>>
+EntryIntents(e) == << [sel |-> e.sel, src |-> My4, dst |-> Peer4, ipsec_proto |-> e.ipsec_proto, mode |-> e.mode, dir |-> 1, index |-> <<0, e.index * 8 + 1>>],
+                      [sel |-> Rev(e.sel), src |-> Peer4, dst |-> My4, ipsec_proto |-> e.ipsec_proto, mode |-> e.mode, dir |-> 0, index |-> <<0, 0>>],
+                      [sel |-> Rev(e.sel), src |-> Peer4, dst |-> My4, ipsec_proto |-> e.ipsec_proto, mode |-> e.mode, dir |-> 2, index |-> <<0, 0>>] >>
+RECURSIVE ListIntents(_)
+ListIntents(l) == IF l = <<>> THEN <<>> ELSE EntryIntents(Head(l)) \o ListIntents(Tail(l))
+
 \* ---------------------------------------------------------------------------------------------- framing theorems
 Get16LE(b, off) == b[off + 1] + 256 * b[off + 2]
 LenOk(b) == Get16LE(b, 0) = Len(b) /\ b[3] = 0 /\ b[4] = 0 /\ Len(b) < 65536
@@ -146,10 +163,12 @@ AttrsOk(b, off) == IF off = Len(b) THEN TRUE
 ASSUME \A i \in NewSas : LET b == EncNewSa(i) IN LenOk(b) /\ AttrsOk(b, L.nlmsghdr + L.usersa_info)
 ASSUME \A i \in Policies : LET b == EncNewPolicy(i) IN LenOk(b) /\ AttrsOk(b, L.nlmsghdr + L.userpolicy_info)
 ASSUME \A i \in DelSas : LenOk(EncDelSa(i))
+ASSUME \A l \in EntryLists : \A k \in 1..Len(ListIntents(l)) : LET b == EncNewPolicy(ListIntents(l)[k]) IN LenOk(b) /\ AttrsOk(b, L.nlmsghdr + L.userpolicy_info)
 
 Vectors == [layout |-> L, const |-> C,
             newsa |-> {[i |-> i, b |-> EncNewSa(i)] : i \in NewSas}, delsa |-> {[i |-> i, b |-> EncDelSa(i)] : i \in DelSas},
-            newpolicy |-> {[i |-> i, b |-> EncNewPolicy(i)] : i \in Policies}, flush |-> {[policy |-> p, b |-> EncFlush(p)] : p \in BOOLEAN}]
+            newpolicy |-> {[i |-> i, b |-> EncNewPolicy(i)] : i \in Policies},
+            policy_lists |-> {[entries |-> l, intents |-> ListIntents(l), requests |-> [k \in 1..Len(ListIntents(l)) |-> EncNewPolicy(ListIntents(l)[k])]] : l \in EntryLists}, flush |-> {[policy |-> p, b |-> EncFlush(p)] : p \in BOOLEAN}]
 ASSUME OutFile = "" \/ JsonSerialize(OutFile, Vectors)
 ASSUME PrintT(<<"CASES", Cardinality(NewSas), Cardinality(DelSas), Cardinality(Policies)>>)
 
